@@ -1,5 +1,5 @@
 (* Props/C03.v — every successfully encoded frame is a single well-formed frame. *)
-Require Import Coq.Strings.String.
+Require Import Coq.Strings.String Net.Concrete.
 Require Import Base.Bytes Wire.Layout Wire.Customs Wire.LayoutProofs Wire.CustomProofs Wire.Packet Wire.PacketChecks Wire.PacketProofs.
 Require Import Gen.Packets Net.Frame Net.FrameProofs.
 Local Open Scope N_scope.
@@ -39,3 +39,10 @@ Proof. intros m p fr p' Hd He Hdec. rewrite (frame_reencode_identical m p fr p' 
 (* per-layout size conditions hold for all 73 generated layouts (finite check) *)
 Theorem c03_all_layouts_multiple_of_4 : forallb kind_size4 packet_table = true.
 Proof. exact table_size4. Qed.
+
+(* the codec of the source keeps no state between calls: its struct has the size mode as its only field (regenerated
+   field names; the codec model is a pure function of the mode), and a connection struct has no field besides those
+   the connection models carry *)
+Theorem c03_codec_is_stateless_like_the_model : state_tied = true.
+Proof. vm_compute. reflexivity. Qed.
+
